@@ -196,6 +196,9 @@ class ReusableParts:
 
     def compute_donors(self):
         self._donor_cache.clear()
+        if self.reuse_tolerance == -1:
+            # reuse is disabled (see normalize); affine_between is meaningless (and divides by zero)
+            return
         for norm in self.shape_sets:
             self._compute_donor(norm)
 
